@@ -14,6 +14,11 @@ def run(tier, seed):
     _, repc = coscommon.mc_and_replay(v, wd, "c16", 2 if tier == "quick" else 3)
     _, reps = coscommon.mc_and_replay(v, wd, "c18", 1 if tier == "quick" else 2)
     _, repk = coscommon.mc_and_replay(v, wd, "c17b", 3)
+    # random lists (TLC Randomization): network lists each also run on a reloaded engine; cosmetic lists likewise
+    nr = 300 if tier == "quick" else 3000
+    _, repr_ = netcommon.mc_and_replay(v, wd, "randr", nr, False, workers=12, extra=["-seed", str(seed + 3000)])
+    vlib.require(repr_["evaluations"] > 20 * nr, "random reload universe too small")
+    _, repcr = coscommon.mc_and_replay(v, wd, "rand", nr, workers=12, extra=["-seed", str(seed)])
     runs, nops = (2, 800) if tier == "quick" else (8, 3000)
     enginecommon.longhist_stage(v, wd, seed, "engine", runs, nops)
     v.assumptions += ["the reloaded engine gets the caller's tags before loading and the same resources after it",
@@ -21,7 +26,8 @@ def run(tier, seed):
     return v.finish("model_checking",
                     "network: all lists of <= %d rules from 29 rules (one per rule shape) x tag sets x 8 requests, on the original engine and on an engine "
                     "loaded from its image; cosmetic: the c16 (scoping), c18 (scriptlets/permissions) and c17b (class/id buckets) universes, every case "
-                    "also executed after a serialize/deserialize round trip" % k, exhaustive=True)
+                    "also executed after a serialize/deserialize round trip; plus 300 (quick) / 3000 random network lists and as many random cosmetic lists, "
+                    "each also executed on a reloaded engine" % k, exhaustive=True)
 
 
 def replay(path):
